@@ -27,6 +27,7 @@ import re
 import numpy as np
 
 from lib import core, gen, graphcap
+from props import xlate_tie
 
 EXTRACTORS = ["Generic", "Stb"]
 # Props/C17Xlate.lean: the hand model of `_squeeze_transpose_broadcast` and of the numpy wrappers equals the Lean definitions
@@ -577,6 +578,9 @@ def run(ctx):
             break
     if ctx.driver_ok:
         stb_tie(ctx, n_stb)
+        # the translated definitions (Extracted/Stb.lean, compiled into the driver) against the real Python functions, and the
+        # reading of Python's builtins against CPython
+        xlate_tie.run(ctx)
     ctx.extra["traces_validated_against_impl"] = ctx.extra.get("texts_checked", 0) + ctx.extra.get("graphs_validated", 0)
 
 
